@@ -1,1 +1,161 @@
 //! Verification hooks (shrex codec / shwap multihasher group); see `mod.rs`.
+//!
+//! * the shrex request / response codecs (`p2p::shrex::codec`) for EDS, row, sample and
+//!   namespace data as plain functions,
+//! * the bitswap multihasher for Shwap blocks (`p2p::shwap::ShwapMultihasher`),
+//! * the CID helpers of `p2p::shwap`.
+
+use std::sync::Arc;
+
+use beetswap::multihasher::MultihasherError;
+use celestia_types::eds::{EdsId, ExtendedDataSquare};
+use celestia_types::namespace_data::{NamespaceData, NamespaceDataId};
+use celestia_types::row::{Row, RowId};
+use celestia_types::sample::{Sample, SampleId};
+use celestia_types::{AppVersion, DataAvailabilityHeader};
+
+use crate::p2p::codec_verif_hooks as codec;
+use crate::p2p::shwap::verif_hooks::VMultihasher;
+use crate::p2p::{VerifCodecError, shwap};
+use crate::store::Store;
+
+pub use cid::{Cid, CidGeneric};
+
+// ------------------------------------------------------------------------------------------
+// shrex codec
+
+/// Plain-data view of the crate-private `CodecError`.
+#[derive(Debug, Clone, PartialEq, Eq)]
+pub enum VCodecError {
+    RequestDecode(String),
+    ResponseDecode(String),
+    ResponseVerification(String),
+}
+
+impl From<VerifCodecError> for VCodecError {
+    fn from(e: VerifCodecError) -> Self {
+        match e {
+            VerifCodecError::RequestDecode(s) => VCodecError::RequestDecode(s),
+            VerifCodecError::ResponseDecode(s) => VCodecError::ResponseDecode(s),
+            VerifCodecError::ResponseVerification(s) => VCodecError::ResponseVerification(s),
+        }
+    }
+}
+
+macro_rules! codec_wrappers {
+    ($req:ty, $resp:ty, $enc_req:ident, $dec_req:ident, $enc_resp:ident, $dec_resp:ident) => {
+        /// `RequestCodec::encode`
+        pub fn $enc_req(req: &$req) -> Vec<u8> {
+            codec::encode_request(req)
+        }
+
+        /// `RequestCodec::decode`
+        pub fn $dec_req(raw: &[u8]) -> Result<$req, VCodecError> {
+            codec::decode_request::<$req>(raw).map_err(Into::into)
+        }
+
+        /// `ResponseCodec::encode`
+        pub fn $enc_resp(resp: &$resp) -> Vec<u8> {
+            codec::encode_response(resp)
+        }
+
+        /// `ResponseCodec::decode_and_verify`
+        pub fn $dec_resp(
+            raw: &[u8],
+            req: &$req,
+            dah: &DataAvailabilityHeader,
+            app_version: AppVersion,
+        ) -> Result<$resp, VCodecError> {
+            codec::decode_and_verify_response::<$resp>(raw, req, dah, app_version)
+                .map_err(Into::into)
+        }
+    };
+}
+
+codec_wrappers!(
+    EdsId,
+    ExtendedDataSquare,
+    eds_encode_request,
+    eds_decode_request,
+    eds_encode_response,
+    eds_decode_and_verify
+);
+codec_wrappers!(
+    RowId,
+    Row,
+    row_encode_request,
+    row_decode_request,
+    row_encode_response,
+    row_decode_and_verify
+);
+codec_wrappers!(
+    SampleId,
+    Sample,
+    sample_encode_request,
+    sample_decode_request,
+    sample_encode_response,
+    sample_decode_and_verify
+);
+codec_wrappers!(
+    NamespaceDataId,
+    NamespaceData,
+    namespace_data_encode_request,
+    namespace_data_decode_request,
+    namespace_data_encode_response,
+    namespace_data_decode_and_verify
+);
+
+// ------------------------------------------------------------------------------------------
+// shwap multihasher
+
+/// Plain-data view of beetswap's `MultihasherError`.
+#[derive(Debug, Clone, PartialEq, Eq)]
+pub enum VMultihasherError {
+    UnknownMultihashCode,
+    InvalidMultihashSize,
+    Custom(String),
+    CustomFatal(String),
+}
+
+/// Public wrapper of the crate-private `ShwapMultihasher`.
+pub struct VShwapMultihasher<S: Store + 'static>(VMultihasher<S>);
+
+impl<S: Store + 'static> VShwapMultihasher<S> {
+    pub fn new(header_store: Arc<S>) -> Self {
+        VShwapMultihasher(VMultihasher::new(header_store))
+    }
+
+    /// `Multihasher::hash`; on success the multihash as `(code, digest)`.
+    pub async fn hash(
+        &self,
+        multihash_code: u64,
+        input: &[u8],
+    ) -> Result<(u64, Vec<u8>), VMultihasherError> {
+        match self.0.hash(multihash_code, input).await {
+            Ok(mh) => Ok((mh.code(), mh.digest().to_vec())),
+            Err(MultihasherError::UnknownMultihashCode) => {
+                Err(VMultihasherError::UnknownMultihashCode)
+            }
+            Err(MultihasherError::InvalidMultihashSize) => {
+                Err(VMultihasherError::InvalidMultihashSize)
+            }
+            Err(MultihasherError::Custom(s)) => Err(VMultihasherError::Custom(s)),
+            Err(MultihasherError::CustomFatal(s)) => Err(VMultihasherError::CustomFatal(s)),
+        }
+    }
+}
+
+// ------------------------------------------------------------------------------------------
+// CID helpers
+
+pub fn sample_cid(row_index: u16, column_index: u16, block_height: u64) -> Result<Cid, String> {
+    shwap::sample_cid(row_index, column_index, block_height).map_err(|e| e.to_string())
+}
+
+pub fn convert_cid<const S: usize>(cid: &CidGeneric<S>) -> Result<Cid, String> {
+    shwap::convert_cid(cid).map_err(|e| e.to_string())
+}
+
+pub fn get_block_container(expected_cid: &Cid, block: &[u8]) -> Result<Vec<u8>, String> {
+    shwap::get_block_container(expected_cid, block).map_err(|e| e.to_string())
+}
